@@ -6,6 +6,7 @@ use vcommon::{Report, ShardArgs};
 
 mod c03;
 mod c11;
+mod c12;
 mod c14;
 mod c16;
 mod c17;
@@ -22,6 +23,7 @@ fn main() {
 	match args.prop.as_str() {
 		"C03" => rt.block_on(c03::run(&args, &mut rep)),
 		"C11" => rt.block_on(c11::run(&args, &mut rep)),
+		"C12" => rt.block_on(c12::run(&args, &mut rep)),
 		"C14" => rt.block_on(c14::run(&args, &mut rep)),
 		"C16" => c16::run(&args, &mut rep),
 		"C17" => c17::run(&args, &mut rep),
